@@ -360,6 +360,37 @@ func runLeaseOnce(c *Case) *leaseSummary {
 		time.Sleep(time.Duration(f.HoldU) * ttl / 20)
 		cs.leave()
 		guard("Locker A Unlock", func() { la.Unlock(); atomic.AddInt64(&cs.rel, 1) })
+	case "orphan":
+		// a lock record nobody renews (the holder died, or the reply of its Create was lost) with half a lease to live;
+		// three Lockers of three providers are waiting on it when it runs out: one of them gets the lock, the others
+		// follow one after the other
+		exp := time.Now().Add(ttl / 2)
+		if _, err := inner.Create(context.Background(), kvs.Record{Key: "/locks/L", Value: []byte("orphan"), ExpiresAt: &exp}); err != nil {
+			sum.setup = "orphan record: " + err.Error()
+			break
+		}
+		var owg sync.WaitGroup
+		for i, l := range []gsync.Locker{p0.NewLocker("L"), p1.NewLocker("L"), p2.NewLocker("L")} {
+			owg.Add(1)
+			go func(i int, l gsync.Locker) {
+				defer owg.Done()
+				guard(fmt.Sprintf("Locker %d Lock", i), func() {
+					l.Lock()
+					cs.enter(fmt.Sprintf("Locker %d acquired after the orphan record had run out while another caller was inside", i))
+					time.Sleep(ttl / 5)
+					cs.leave()
+					l.Unlock()
+					atomic.AddInt64(&cs.rel, 1)
+				})
+			}(i, l)
+		}
+		all := make(chan struct{})
+		go func() { owg.Wait(); close(all) }()
+		select {
+		case <-all:
+		case <-time.After(3*ttl + 3*time.Second):
+			sum.skipped = "the three Lockers had not all had the lock 3 leases + 3 s after the orphan record was written"
+		}
 	default:
 		sum.setup = "unknown lease scenario " + f.Scn
 	}
@@ -598,7 +629,7 @@ func leaseCase(prop string, seed uint64, i int) Case {
 	r := prng.New(seed, prop+"-lease", uint64(i))
 	c := Case{Prop: prop, SSeed: r.U64(), Ops: []Op{}, Prov: []int{0, 1, 2}, NT: 3}
 	f := &Free{G: []int{0, 1, 2}, Rounds: 1, LeaseMs: []int{160, 240, 320}[i%3]}
-	switch i % 4 {
+	switch i % 5 {
 	case 0:
 		f.Scn = "contend"
 		f.HoldU = r.Range(14, 32) // Locker 0 holds for 0.7 .. 1.6 lease periods
@@ -611,10 +642,12 @@ func leaseCase(prop string, seed uint64, i int) Case {
 	case 3:
 		f.Scn = "relock"
 		f.HoldU = r.Range(44, 52) // 2.2 .. 2.6 lease periods after the second acquisition
+	case 4:
+		f.Scn = "orphan"
 	}
 	f.Warm = i%8 >= 4
 	f.Far = i%3 == 1
-	f.Redis = f.Scn == "contend" && i%8 == 4
+	f.Redis = f.Scn == "contend" && i%10 == 0
 	c.Free = f
 	return c
 }
